@@ -243,12 +243,15 @@ Inductive rk :=
 | KElemExpr    (* `ref.func f` expression item of an element segment (re-indexed since the repair of D05) *)
 | KDataMem     (* memory index of an active data segment *)
 | KDataOff     (* `global.get g` offset of an active data segment *)
-| KInit.       (* `global.get g` / `ref.func f` in the initialiser of a local global *)
+| KInit        (* `global.get g` / `ref.func f` in the initialiser of a local global *)
+| KElemOff     (* `global.get g` offset of an active element segment (kept as parsed; re-indexed since the repair of D05) *)
+| KTableInit.  (* `ref.func f` initialiser of a table (kept as parsed; re-indexed since the repair of D05) *)
 Inductive owner := ONone | OFunc (id : N) | OGlobal (id : N) | OExport (k : N).
 Record rsite := mkSite { rs_k : rk; rs_sp : sp; rs_id : N; rs_owner : owner }.
 
 Definition rk_code (k : rk) : N :=
-  match k with KCode => 0 | KExport => 1 | KStart => 2 | KElemFn => 3 | KElemExpr => 4 | KDataMem => 5 | KDataOff => 6 | KInit => 7 end.
+  match k with KCode => 0 | KExport => 1 | KStart => 2 | KElemFn => 3 | KElemExpr => 4 | KDataMem => 5 | KDataOff => 6 | KInit => 7
+  | KElemOff => 8 | KTableInit => 9 end.
 
 (* ---------- encode: what the decoder of the output can see ---------- *)
 Record emod := mkE {
